@@ -72,8 +72,16 @@ def observed_graph(j):
     if j.get("_warnings", "").strip():
         problems.append("graphviz-warning")
     for e in j.get("edges", []):
-        port = int(e["tailport"][1:]) if "tailport" in e else None
-        if port is not None and f'PORT="p{port}"' not in objs[e["tail"]].get("label", ""):
+        port = None
+        if "tailport" in e:
+            tp = e["tailport"]
+            if re.fullmatch(r"p\d+", tp):
+                port = int(tp[1:])
+            else:
+                # not a slot name of the form p<i> (e.g. "p0:p0"): keep it verbatim, it can match no expected slot
+                port = tp
+                problems.append("edge-from-malformed-slot")
+        if isinstance(port, int) and f'PORT="p{port}"' not in objs[e["tail"]].get("label", ""):
             problems.append("edge-from-missing-slot")
         out_edges.setdefault(e["tail"], []).append((port, e.get("label", ""), e["head"]))
         indeg[e["head"]] += 1
@@ -195,7 +203,19 @@ def session(seq):
     for i in seq:
         # an operation is a chain index, or [chain index, graph name] for a viewer given a name of its own
         i, gname = (i, None) if isinstance(i, int) else (i[0], i[1])
-        v = DecayChainViewer(chain_dict(SESSION_CHAINS[i], "M", {}), **({"name": gname} if gname else {}))
+        if gname == "@thread":
+            # the viewer is built in a worker thread of its own (started and joined here: one deterministic schedule;
+            # a session may well build its graphs in a thread pool)
+            import threading
+            box = []
+            t = threading.Thread(target=lambda: box.append(DecayChainViewer(chain_dict(SESSION_CHAINS[i], "M", {}))))
+            t.start()
+            t.join()
+            if not box:
+                return ("dot-error", "viewer construction failed in a worker thread")
+            v = box[0]
+        else:
+            v = DecayChainViewer(chain_dict(SESSION_CHAINS[i], "M", {}), **({"name": gname} if gname else {}))
         j, err = dot_json(v.to_string())
         if j is None:
             return ("dot-error", err)
@@ -260,10 +280,12 @@ def run(ctx):
     # viewers with a graph name of their own mixed with default-named ones (all sequences of length <= 2 over 3 chains x 3 names)
     named_ops = [[i, g] if g else i for i in (0, 1, 3) for g in (None, "Xdecays", "Other")]
     seqs += [list(s) for n in (1, 2, 3 if ctx.thorough else 2) for s in itertools.product(named_ops, repeat=n) if any(not isinstance(o, int) for o in s)]
+    thread_ops = [0, 2, [0, "@thread"], [1, "@thread"], [2, "@thread"]]
+    seqs += [list(s) for n in (1, 2, 3) for s in itertools.product(thread_ops, repeat=n) if any(not isinstance(o, int) for o in s)]
     run_tasks(ctx, work_sessions, [seqs[i:i + 4] for i in range(0, len(seqs), 4)])
     ctx.count(states=len(sc) + len(cc) + len(seqs), transitions=len(sc) + len(cc) + sum(len(s) for s in seqs))
     ctx.part("graphs", from_tables=len(sc), from_class=len(cc), renamings=len(RENAMES))
-    ctx.part("sessions", histories=len(seqs), max_viewers=4 if ctx.thorough else 3, complete=True)
+    ctx.part("sessions", histories=len(seqs), max_viewers=4 if ctx.thorough else 3, complete=True, note="incl. viewers given a graph name and viewers built in worker threads (<= 3 viewers)")
     ex = chain_dict(shapes.table_sets(1).__next__(), "M", RENAMES[1])
     t = {"M": [["X", "p"], ["q"]], "X": [["p", "q"], []]}
     ctx.sample({"chain": chain_dict(t, "M", RENAMES[1]), "expected_graph": repr(expected_graph(chain_dict(t, "M", RENAMES[1])))})
